@@ -168,6 +168,12 @@ def main():
                     "anchors": [("top_1", Fr(110), Fr(710)), ("top_2", Fr(300), Fr(720))]},
                    {"name": "f_f_f_i", "unicodes": [], "width": 1150, "contours": [], "anchors": [],
                     "components": [("f", (1, 0, 0, 1, 0, 0)), ("f", (1, 0, 0, 1, 300, 0)), ("f_i", (1, 0, 0, 1, 600, 0))]}]
+            # a base whose curve handles stick out sideways beyond the outline itself (a lens drawn with two cubic segments and
+            # no nodes at the horizontal extremes): "how wide is this glyph" must not depend on the UFO library
+            fg.append({"name": "o", "unicodes": [0x6F], "width": 500, "components": [],
+                       "contours": [[(Fr(250), Fr(0), "curve"), (Fr(520), Fr(100), None), (Fr(520), Fr(400), None), (Fr(250), Fr(500), "curve"),
+                                     (Fr(-20), Fr(400), None), (Fr(-20), Fr(100), None)]],
+                       "anchors": [("top", Fr(300), Fr(520)), ("bottom", Fr(200), Fr(-10))]})
             if i % 2 == 0:
                 fg.append({"name": "dottedcircle", "unicodes": [0x25CC], "width": 600, "contours": sqf(100, 100, 400), "components": [],
                            "anchors": [("bottom", Fr(300), Fr(-20))] if i % 4 == 2 else []})
